@@ -634,6 +634,10 @@ def check_priority_pool_order(ctx):
                 pls.append(lp)
             lp = enclosing_for(lp, f.node)
     for pl in pls:
+        byp = g.path_avoiding(g.entry.id, {g.exit.id}, {g.node_of(pl).id})
+        ctx.ob(4, "K3", "[priority-pool] every round runs the placement pass: a ready job may be waiting from an earlier round for capacity that a finished container has "
+               "just released, whatever this round's arrivals and failures are (no early return before the pool loop)", byp is None, f, pl, construct="placement pass on every path",
+               detail="the pool loop is on every path from entry to return" if byp is None else g.describe_path(byp))
         hid = g.node_of(pl).id
         inside = {g.node_of(st).id for b in pl.body for st in ast.walk(b) if isinstance(st, ast.stmt) and id(st) in g.stmt_node}
         # leaving the pool loop other than by exhausting it: an edge from a node inside the body to a node outside that is not the header
